@@ -339,8 +339,8 @@ def r5(ctx):
     C18.r2(sub)
     n = 0
     for o in sub.obligations:
-        if "heads-rebuilt" not in o["key"] and "entry_put[" not in o["key"]:
-            continue
+        if ("heads-rebuilt" not in o["key"] and "entry_put[" not in o["key"]) or "below-head" in o["key"]:
+            continue      # (the key a head names is C18's business: C13 speaks about timestamps)
         o = dict(o)
         o["key"] = o["key"].replace("C18.R2", "C13.R5")
         o["rule"] = "C13.R5"
